@@ -213,6 +213,7 @@ type env struct {
 	*vh.VMEnv
 	vals []V
 	got  map[int]Out
+	disp map[string]string // AsString of the object / instance operands the scripts build (probed once)
 }
 
 type fnV struct{ e *env }
@@ -242,6 +243,12 @@ func (f *fnR) Call(ctx data.Context) (data.GetValue, data.Control) {
 		id = iv.Value
 	}
 	f.e.got[id] = Out{Kind: "val", Val: fromData(x)}
+	if id < 0 {
+		// display probe: __r(-1, $obj), __r(-2, $instance)
+		if dv, ok := x.(data.Value); ok {
+			f.e.disp[fromData(x).K] = dv.AsString()
+		}
+	}
 	return data.NewNullValue(), nil
 }
 func (f *fnR) GetName() string { return "__r" }
@@ -291,10 +298,11 @@ func firstLine(s string) string {
 }
 
 func newEnv() *env {
-	e := &env{VMEnv: vh.NewEnv(), got: map[int]Out{}}
+	e := &env{VMEnv: vh.NewEnv(), got: map[int]Out{}, disp: map[string]string{}}
 	e.VM.AddFunc(&fnV{e})
 	e.VM.AddFunc(&fnR{e})
 	e.VM.AddFunc(&fnE{e})
+	e.runBatch(nil, operandInit("o", 0, V{K: "o"})+operandInit("c", 0, V{K: "c"})+"__r(0 - 1, $o);\n__r(0 - 2, $c);\n")
 	return e
 }
 
@@ -349,4 +357,15 @@ func (e *env) runBare(vals []V, init, expr string) Out {
 		return Out{Kind: "crash", Msg: o.Detail}
 	}
 	return Out{Kind: "none", Msg: o.Kind + ": " + o.Detail}
+}
+
+// AsString of a non-scalar operand as the interpreter renders it
+func (e *env) display(v V) string {
+	switch v.K {
+	case "a":
+		return toData(v).AsString()
+	case "o", "c":
+		return e.disp[v.K]
+	}
+	return ""
 }
